@@ -407,6 +407,8 @@ def run(R):
         fixed_sequences(R)
     if R.shard == 2 % R.nshards:
         long_lived_listener(R)
+    if R.shard == 3 % R.nshards:
+        several_listeners(R)
     for i in range(n):
         if not R.mine(i):
             continue
@@ -505,6 +507,70 @@ def long_lived_listener(R):
     R.mon["ignored_datagrams_on_one_listener"] += ignored
 
 
+def several_listeners(R):
+    """Several listeners in ONE process (one loop), each with a community of its own: every
+    listener delivers the notifications carrying ITS community that arrive on ITS port,
+    whichever listener was registered first or saw a datagram first."""
+    comms = (b"public", b"beta", b"gamma-community")
+    for order in ((0, 1, 2), (2, 0, 1), (1, 2, 0)):
+        events = []
+        loop = asyncio.new_event_loop()
+        loop.set_exception_handler(lambda l, ctx: None)
+        ports = {}
+        sock = socket.socket(socket.AF_INET, socket.SOCK_DGRAM)
+        sock.bind(("127.0.0.1", 0))
+        sends = []
+        with warnings.catch_warnings(record=True):
+            warnings.simplefilter("always")
+            try:
+                for li in order:
+                    ports[li] = free_port()
+
+                    def make(li):
+                        async def cb(trap):
+                            events.append((li, trap.value.request_id))
+
+                        return cb
+
+                    register_trap_callback(make(li), listen_address="127.0.0.1", port=ports[li], credentials=V2C(comms[li].decode()), loop=loop)
+                rid = 3000
+                # first datagram of the process goes to the listener registered LAST
+                plan = [(order[-1], order[-1])] + [(to, c) for to in order for c in order] + [(li, li) for li in order]
+                for to, c in plan:
+                    rid += 1
+                    vbs = [(UPTIME, ("tt", rid)), (TRAPOID, ("oid", (1, 3, 6, 1, 4, 1, 4242, 0, rid)))]
+                    sock.sendto(ber.enc_community_message(1, comms[c], {"type": ber.PDU_TRAP, "request_id": rid, "error_status": 0, "error_index": 0, "varbinds": vbs}), ("127.0.0.1", ports[to]))
+                    sends.append((to, c, rid))
+                    for _ in range(200 if to == c else 6):
+                        loop.run_until_complete(asyncio.sleep(0.004))
+                        if any(e[1] == rid for e in events):
+                            break
+                loop.run_until_complete(asyncio.sleep(0.05))
+            finally:
+                sock.close()
+                try:
+                    for t in asyncio.all_tasks(loop):
+                        t.cancel()
+                    loop.run_until_complete(loop.shutdown_asyncgens())
+                finally:
+                    for tr in list(getattr(loop, "_transports", {}).values()):
+                        tr.close()
+                    loop.run_until_complete(asyncio.sleep(0))
+                    loop.close()
+        R.evaluations += 1
+        R.case(("c19-several-listeners", order), True)
+        R.mon["datagrams_sent"] += len(sends)
+        want = [(to, rid) for to, c, rid in sends if to == c]
+        if events != want:
+            missing = [x for x in want if x not in events]
+            extra = [x for x in events if x not in want]
+            R.violation({"v6": False, "items": [], "several_listeners": True}, "three listeners with communities %r (registered in order %r): never delivered %r, wrongly delivered %r (listener, request-id)" % ([c.decode() for c in comms], list(order), missing[:4], extra[:4]), None)
+            return
+        R.mon["several_listener_sequences_ok"] += 1
+        R.mon["valid_traps_delivered_once"] += len(want)
+        R.mon["invalid_never_delivered"] += len(sends) - len(want)
+
+
 def fixed_sequences(R):
     """A valid notification from each particular source port (the ends of the port
     range included), and every foreign community in front of a valid notification."""
@@ -545,6 +611,9 @@ def fixed_sequences(R):
 def replay(R, v):
     if v["case"].get("long_lived"):
         long_lived_listener(R)
+        return
+    if v["case"].get("several_listeners"):
+        several_listeners(R)
         return
     items = []
     for it in v["case"]["items"]:
